@@ -17,9 +17,11 @@ EXPLANATION = (
     "Static writer/reader agreement and capacity arithmetic. Decides: (R1) header pack/unpack formats, field order and sizes "
     "agree; Packet.create sets length/count from the payload it built and from_bytes slices/loops by exactly those fields; (R2) "
     "single-message and multi-message framing use the same formats, slice offsets and advance on both sides, Packet.overhead and "
-    "the class constants equal the real format sizes, total_size equals what to_bytes produces; (R3) for every MTU 512..1500 the "
-    "admission bound plus header plus tag is at most (and exactly) MTU-28 and Packet.setMTU reproduces the class-body defaults at "
-    "1500; (R4) the number of messages a datagram can admit fits the one-byte count field (or an explicit count guard caps it), "
+    "the class constants equal the real format sizes, total_size equals what to_bytes produces, decode guards refuse only remainders "
+    "shorter than what the writer always emits; (R3) for every MTU 512..1500 the real encoded size of every admissible message list "
+    "is at most (and the accounting exactly reaches) MTU-28: the size accounting of both packing loops is interpreted as linear "
+    "forms over (payload length, message count, admitted bytes), its closed form is derived by induction and compared with payload "
+    "+ overhead(n+1); Packet.setMTU reproduces the class-body defaults at 1500; (R4) the number of messages a datagram can admit fits the one-byte count field (or an explicit count guard caps it), "
     "payload lengths fit their 16-bit fields, packet type values fit one byte, sequence numbers and the 32-bit bitmap fit their "
     "fields; (R5) packing removes a message from its queue only where it is added to the packet (shared with C05.R5); (R6) the "
     "server send paths have no possibly-unbound local and contain encoding and socket errors per datagram. Does not decide "
